@@ -484,6 +484,8 @@ use prelude::{Rc, String, Vec, format};
 pub use error::JsError;
 pub use gc::{Gc, GcStats, Guard, Heap, Reset};
 pub use interpreter::Interpreter;
+#[cfg(tsrun_verif)]
+pub use interpreter::VerifSummary;
 pub use string_dict::StringDict;
 pub use value::CheapClone;
 pub use value::EnvRef;
